@@ -129,3 +129,12 @@ Theorem C10_source_margins : forall len lps psoff offset overhead,
     else if (offset <=? psoff)%Z then DErr 2 else DErr 1.
 Proof. exact go_margins_spec. Qed.
 Print Assumptions C10_source_margins.
+
+(* ---------- a route lookup sees one table state (go/ast obligation on the source under test) ---------- *)
+(* switch_handle / route_frame read the routing table once per frame; the real LookupNearestRoute
+   is one critical section under the table's read lock and every mutating operation one critical
+   section under its write lock, so the table a lookup sees is a state of the table model.
+   Computed from m/table.go on every run. *)
+Theorem C10_lookup_sees_one_table_state : Gen.table_ops_serialised = true /\ Gen.lock_discipline_table = true.
+Proof. split; reflexivity. Qed.
+Print Assumptions C10_lookup_sees_one_table_state.
